@@ -308,5 +308,5 @@ def hyp_cases(draw, tier):
 
 
 PARTS = [
-    Part("exports", run, strategy=lambda tier: hyp_cases(tier), n={"quick": 1500, "thorough": 40000}),
+    Part("exports", run, strategy=lambda tier: hyp_cases(tier), n={"quick": 1500, "thorough": 150000}),
 ]
